@@ -428,6 +428,16 @@ void gen_bs(FILE * f, Rng & r, int nconf)
     go(tmax, "t_max");
     go(std::nextafter(t0, -inf), "t_min-1ulp");
     go(std::nextafter(tmax, inf), "t_max+1ulp");
+    // the interior of (t_min - dt, t_min): truncation toward zero gives istar = 0 there and only the clamp of u
+    // keeps the start value; and the mirror images above t_max
+    {
+      static const double FS[] = {1e-9, 1e-3, 0.25, 0.5, 0.75, 1.0 - 1e-9, 1.0, 1.0 + 1e-9};
+      static const char * FN[] = {"1e-9", "1e-3", "0.25", "0.5", "0.75", "1-1e-9", "1", "1+1e-9"};
+      for (int k = 0; k < 8; ++k) {
+        go(t0 - FS[k] * dt, std::string("t_min-") + FN[k] + "dt");
+        go(tmax + FS[k] * dt, std::string("t_max+") + FN[k] + "dt");
+      }
+    }
     go(t0 - 1e3 * dt - 1.0, "far_below");
     go(tmax + 1e3 * dt + 1.0, "far_above");
     go(t0 - 1e15 * dt, "far_below_1e15dt");
